@@ -901,6 +901,8 @@ fn cmd_c09(n: usize) -> (u64, Vec<String>) {
                     "a\u{200b}b", "\u{1f468}\u{200d}\u{1f469}", "soft\u{ad}hyphen", "\u{e000}", "x\u{a0}", "\u{2028}x", "a\u{200b}b (?)",
                     // unprintable content AND a modifier-like ending
                     "a\tb (no-eol)", "\u{1b}[1mx\u{1b}[0m (no-eol)", "\tx (escaped)", "\tx (glob)", "\tx (equal)", "\tx (*)", "\u{e9}\tx (no-eol)", "\t (no-eol) (no-eol)",
+                    // a lone marker character: with the ` (no-eol)` suffix the written line starts like a command / continuation
+                    ">", "$",
                     // non-ASCII white space before a modifier-like ending
                     "foo\u{a0}(glob)", "total: 3\u{2003}(?)", "x\u{3000}(no-eol)"] {
         for tail in ["\n", "", "\nz\n", "\nz"] {
@@ -932,6 +934,7 @@ fn cmd_c09(n: usize) -> (u64, Vec<String>) {
         for l in text.lines() {
             let is_code = l.len() > 2 && l.starts_with('[') && l.ends_with(']') && l[1..l.len() - 1].bytes().all(|b| b.is_ascii_digit());
             if is_code { return "exit-code-line"; }
+            if l == ">" || l == "$" { return "marker-made-by-suffix"; }
             if l.starts_with("$ ") { return "command-line"; }
             if l.starts_with("> ") { return "continuation-line"; }
         }
@@ -972,6 +975,26 @@ fn cmd_c09(n: usize) -> (u64, Vec<String>) {
                     }
                 }
             }
+        }
+    }
+    // a test that validates STDERR (Markdown: the setting is written into the document): `update` for a changed exit code / changed output
+    {
+        use scrut::generators::generator::UpdateGenerator;
+        use scrut::generators::markdown::MarkdownUpdateGenerator;
+        for (exps, code) in [(vec!["err"], 3i32), (vec!["old"], 0), (vec!["old"], 3)] {
+            cases += 1;
+            let doc = format!("# t\n\n```scrut {{output_stream: stderr}}\n$ cmd\n{}\n```\n", exps.join("\n"));
+            let output = Output { stderr: "err\n".into(), stdout: "out\n".into(), exit_code: ExitStatus::Code(code) };
+            let res = (|| -> Result<(), String> {
+                let tcs = MarkdownParser::new(maker.clone(), DEFAULT_MARKDOWN_LANGUAGES, None).parse(&doc).map_err(|e| format!("{e}"))?.1;
+                let result = tcs[0].validate(&output);
+                let outcome = Outcome { location: None, output: output.clone(), testcase: tcs[0].clone(), format: ParserType::Markdown, escaping: Escaper::default(), result };
+                let updated = MarkdownUpdateGenerator::default().generate_update(&doc, &[&outcome]).map_err(|e| format!("update fails: {e}"))?;
+                let t2 = MarkdownParser::new(maker.clone(), DEFAULT_MARKDOWN_LANGUAGES, None).parse(&updated).map_err(|e| format!("updated document does not parse: {e}"))?.1;
+                if t2.len() != 1 { return Err(format!("updated document has {} test cases", t2.len())); }
+                t2[0].validate(&output).map_err(|_| format!("the block written by update fails against the output it was generated from; updated document {updated:?}"))
+            })();
+            if let Err(w) = res { bad.push(format!("{{\"class\":\"stderr-stream\",\"why\":{},\"output\":\"stdout out, stderr err\",\"exit\":{code},\"format\":\"Markdown\",\"escaper\":\"Unicode\"}}", jstr(&format!("C09: test with output_stream: stderr, expectations {exps:?}, exit code {code}: {w}")))); }
         }
     }
     (cases, bad)
